@@ -6,3 +6,13 @@ open XotModel.Props
 #print axioms C01_attr
 #print axioms C01_text_lexsafe
 #print axioms C01_attr_lexsafe
+#print axioms C01_serialised_is_rendering
+#print axioms C01_serialised_is_rendering_ok
+#print axioms C01_serialised_is_rendering_conv
+#print axioms C01_serialised_fails_iff
+#print axioms C01_serialised_is_rendering_at
+#print axioms C01_serialised_is_rendering_representable
+#print axioms C01_rendering_lexok
+#print axioms C01_rendering_lexok_fragment
+#print axioms C01_rendering_decodes
+#print axioms C01_value_spelling
